@@ -177,7 +177,9 @@ fn aud_value(r: &mut Rng) -> JV {
         0..=7 => JV::Str(if r.chance(1, 3) { r.pick(&["a b", "", " ", "https://rs.example/ https://rs2.example/", "a,b"]).to_string() } else { gen::hostile_s(r) }),
         8..=10 => JV::Arr(vec![]),
         11..=19 => JV::Arr((0..r.range(1, 4)).map(|_| JV::Str(if r.chance(1, 5) { String::new() } else { gen::mixed(r) })).collect()),
-        20..=21 => JV::Arr(vec![JV::Str("a b".into()), JV::Str("a b".into())]),
+        20 => JV::Arr(vec![JV::Str("a b".into()), JV::Str("a b".into())]),
+        // exactly one audience, containing a space
+        21 => JV::Arr(vec![JV::Str(r.pick(&["billing api", "a b", " ", "resource server one"]).to_string())]),
         // mixed garbage: not a string / list of strings
         22 => r
             .pick(&[
